@@ -137,6 +137,14 @@ func (m *Machine) callVx(fn *ssa.Function, a []Value) Value {
 		m.declInput(&InputDecl{Name: name, Kind: "int", Bits: 64, Term: t})
 		m.assertPC(c.And(c.Sle(c.BV(64, uint64(lo)), t), c.Sle(t, c.BV(64, uint64(hi)))))
 		return t
+	case "vxTime":
+		// a time.Time whose instant is symbolic in [lo,hi] (0 = the zero time)
+		name := m.mustStr(a[0], "vxTime name")
+		lo, hi := m.toInt(a[1]), m.toInt(a[2])
+		t := c.Var(name, 64)
+		m.declInput(&InputDecl{Name: name, Kind: "int", Bits: 64, Term: t})
+		m.assertPC(c.And(c.Sle(c.BV(64, uint64(lo)), t), c.Sle(t, c.BV(64, uint64(hi)))))
+		return Struct{int64(0), t, (*Value)(nil)}
 	case "vxBool":
 		name := m.mustStr(a[0], "vxBool name")
 		if v, ok := m.Fixed[name]; ok {
